@@ -36,6 +36,7 @@ static size_t intern(uint64_t k) {
     return i;
 }
 static int key_fresh;                       /* keys=buf */
+static int sparse;                          /* obs=sparse: content is observed only by the `observe` op */
 #define NSCRATCH 64
 #define NARENA (1 << 15)
 static _Alignas(16) unsigned char scratch[NSCRATCH][32]; static size_t scratch_i;
@@ -95,6 +96,7 @@ static void conf_from_cmd(Cmd *c, CC_HashTableConf *conf) {
         conf->key_compare = cmp_bytes; conf->key_length = key_len_bytes; }
     else conf->hash = h_id;
     key_fresh = !strcmp(kv_str(c, "keys", "id"), "buf"); arena_i = 0;
+    sparse = !strcmp(kv_str(c, "obs", "full"), "sparse");
     conf->mem_alloc = conf_malloc; conf->mem_calloc = conf_calloc; conf->mem_free = conf_free;
 }
 
@@ -105,7 +107,7 @@ static uint64_t universe[4096]; static size_t n_univ;
 static unsigned long long ord_log[4096]; static size_t ord_n; static int ord_on;
 static int load_bound_broken; /* C20: size > threshold right after a successful insertion */
 static char extra_phys[64]; /* out-value of remove/iter_remove: the table's dummy value, judged at L3 only */
-static void shim_reset(void) { hs = NULL; it_valid = 0; n_univ = 0; }
+static void shim_reset(void) { sparse = 0; hs = NULL; it_valid = 0; n_univ = 0; }
 static void univ_add(uint64_t k) {
     for (size_t i = 0; i < n_univ; i++) if (universe[i] == k) return;
     if (n_univ < 4096) universe[n_univ++] = k;
@@ -180,7 +182,7 @@ static void do_op(Cmd *c) {
         if (st != CC_OK) hs = NULL;
         o_stat(st); o(" ");
     } else if (is_op(c, "new_default")) {
-        hs = NULL; it_valid = 0; key_kind = K_STR; key_fresh = 0;
+        hs = NULL; it_valid = 0; key_kind = K_STR; key_fresh = 0; sparse = !strcmp(kv_str(c, "obs", "full"), "sparse");
         enum cc_stat st = cc_hashset_new(&hs); if (st != CC_OK) hs = NULL; o_stat(st); o(" ");
     } else if (!hs) { o("st=- nosession ");
     } else if (is_op(c, "add")) {
@@ -211,6 +213,8 @@ static void do_op(Cmd *c) {
             o_stat(st); if (st == CC_OK && !noout) snprintf(extra_phys, sizeof extra_phys, " rmout=%llu", VAL(out)); o(" "); }
     } else if (is_op(c, "destroy")) {
         cc_hashset_destroy(hs); hs = NULL; it_valid = 0; o("st=- ");
+    } else if (is_op(c, "observe")) { o("st=- ");
     } else { o("st=- badop "); }
-    obs_abs(); o_sep(); phys();
+    if (!sparse || is_op(c, "observe")) obs_abs();
+    o_sep(); phys();
 }
